@@ -19,3 +19,12 @@ package xpath
 //@   ensures result1 == nil ==> dyn(result0) == int64 || dyn(result0) == float64
 //@   ensures result1 == nil && (forall k int :: 0 <= k && k < len(s) ==> s[k] != '.') ==> dyn(result0) == int64
 //@   ensures result1 == nil && dyn(result0) == int64 ==> Z(result0.(int64)) == strnum(s)
+
+// ---- C13: the path stack of the expression parser grows with the expression --------------------------------------
+//@ func (s *stack) push(p *Path)
+//@   mode int
+//@   property C13
+//@   requires s != nil && p != nil && 0 <= s.count && s.count <= len(s.steps)
+//@   requires forall k int :: 0 <= k && k < s.count ==> s.steps[k] != nil
+//@   ensures s.count == old(s.count) + 1 && s.count <= len(s.steps)
+//@   ensures forall k int :: 0 <= k && k < s.count ==> s.steps[k] != nil
